@@ -3,6 +3,7 @@ CONSTANTS
   Endpoints = {"full", "mosnconfig", "allrouters", "allclusters", "alllisteners", "router", "cluster", "listener"}
   MaxOps = 2
   KeyForms = {"lead_ws", "preamble", "trailing", "crlf", "two_blocks", "path"}
+  KeySpells = {"exact"}
   ArrayLen = 3
   Defects = {}
 SPECIFICATION Spec
